@@ -44,6 +44,9 @@ func extractKeysWeightsAggregateWithScores(cmd []string) ([]string, []int, strin
 		return strings.EqualFold(s, "aggregate")
 	})
 	if aggregateIndex != -1 {
+		if aggregateIndex+1 >= len(cmd) {
+			return []string{}, []int{}, "", false, errors.New("aggregate must be SUM, MIN, or MAX")
+		}
 		if !slices.Contains([]string{"sum", "min", "max"}, strings.ToLower(cmd[aggregateIndex+1])) {
 			return []string{}, []int{}, "", false, errors.New("aggregate must be SUM, MIN, or MAX")
 		}
